@@ -89,8 +89,45 @@ def run(prop, tier, *, mc_module, mc_cfg, driver, trace_module, trace_spec="TSpe
     notes = list(summ.get("notes") or [])
     if post_harness:
         post_harness(wd, summ)
-    chunks = split_at_calls(trace, wd, max_events=max_events)
+    # cases listed in known-findings.txt are judged separately (one representative per key is re-validated and must still be
+    # rejected); the remaining trace must be accepted in full, so a different violation of the same property is still reported
+    findings, _ = C.load_findings()
+    known_keys = {k for p, k, _ in findings if p == prop}
     violations = []
+    if known_keys:
+        main_lines, blocks, cur = [], {}, []
+
+        def close(block):
+            if not block:
+                return
+            evs_b = [json.loads(x) for x in block]
+            k = key_fn(evs_b[0], evs_b)
+            if k in known_keys:
+                blocks.setdefault(k, []).append(block)
+            else:
+                main_lines.extend(block)
+        for line in open(trace):
+            if '"ev":"Call"' in line:
+                close(cur)
+                cur = []
+            cur.append(line)
+        close(cur)
+        with open(trace, "w") as f:
+            f.writelines(main_lines)
+        for k in sorted(blocks):
+            kp = os.path.join(wd, "known-%d.ndjson" % (abs(hash(k)) % 10**8))
+            with open(kp, "w") as f:
+                f.writelines(blocks[k][0])
+            kr = validate(trace_module, trace_spec, kp, trace_consts, wd)
+            if kr.ok:
+                C.log("NOTE [%s] listed finding %s no longer manifests on this tree (%d cases accepted)" % (prop, k, len(blocks[k])))
+            elif kr.postcondition_false:
+                evs_b = [json.loads(x) for x in blocks[k][0]]
+                rp = C.write_replay(prop, "known-%s" % re.sub(r"[^A-Za-z0-9]+", "-", k)[:60], dict(property=prop, seed=C.seed(), tier=tier, case=evs_b[0].get("input"), observed=evs_b, key=k))
+                violations.append(dict(key=k, replay=rp, text="known finding, %d cases" % len(blocks[k])))
+            else:
+                raise C.Infra("trace validation failed on known-finding case %s:\n%s" % (k, kr.out[-2000:]))
+    chunks = split_at_calls(trace, wd, max_events=max_events)
     with ThreadPoolExecutor(max_workers=8) as ex:
         results = list(ex.map(lambda pn: (pn, validate(trace_module, trace_spec, pn[0], trace_consts, wd)), chunks))
     for (chunk, n), vr in results:
